@@ -382,8 +382,16 @@ struct RealAcc {
 template <typename MakeReader>
 RunResult run_script(MakeReader&& make_reader, bool real, RealAcc* acc, bool meta_expected) {
     RunResult rr;
+    // A joined thread can still be listed in /proc/self/task for a moment (pthread_join returns when the kernel
+    // clears the tid, before the task is reaped): take the baseline only when the count has settled, and count
+    // only a persistent surplus as a leak.
     const int fds0 = count_fds();
-    const int thr0 = count_threads();
+    int thr0 = count_threads();
+    for (int i = 0, same = 0; i < 200 && same < 3; ++i) {
+        std::this_thread::sleep_for(std::chrono::milliseconds(1));
+        const int t = count_threads();
+        if (t == thr0) ++same; else { same = 0; thr0 = t; }
+    }
     {
         std::unique_ptr<oio::Reader> reader = make_reader();
         for (std::size_t si = 0; si < g_cfg.script.size();) {
@@ -435,12 +443,12 @@ RunResult run_script(MakeReader&& make_reader, bool real, RealAcc* acc, bool met
     }
     // pool workers stay; Reader threads must be gone.  Give detached bookkeeping of the kernel a moment.
     int fds1 = count_fds(), thr1 = count_threads();
-    for (int i = 0; i < 50 && (thr1 != thr0); ++i) {
+    for (int i = 0; i < 250 && (thr1 > thr0); ++i) {
         std::this_thread::sleep_for(std::chrono::milliseconds(2));
         thr1 = count_threads();
     }
-    rr.fdleak = fds1 - fds0;
-    rr.thrleak = thr1 - thr0;
+    rr.fdleak = fds1 > fds0 ? fds1 - fds0 : 0;
+    rr.thrleak = thr1 > thr0 ? thr1 - thr0 : 0;
     rec(json{{"e", "C.Ret"}, {"res", "destroyed"}, {"fdleak", rr.fdleak}, {"thrleak", rr.thrleak}});
     rr.log.emplace_back("destroyed");
     return rr;
